@@ -26,7 +26,9 @@ STR_EDGE = ["", "a", "b", "doc", "x y", "\n", "\x00", "\x7f", "é", " ", "\U00
             # Unicode database version (assigned in Unicode 12-15)
             "\ud800\u0870", "\udc80\U0001fae0", "\ud800\u0cf3", "\U0001fae0",
             # line separators that str.splitlines() honours and JSON emits raw
-            "a\u2028b", "\x85", "x\u2029", "\x0c\x1c\x1d\x1e"]
+            "a\u2028b", "\x85", "x\u2029", "\x0c\x1c\x1d\x1e",
+            # a high surrogate directly followed by a low one, as two code points (not "lone", still not UTF-8)
+            "\ud83d\ude00", "x\ud800\udc00y"]
 BYTES_EDGE = [b"", b"a", b"\x00", b"\xff\xfe", b"doc", b"'\"\\"]
 
 
